@@ -43,10 +43,15 @@ CHECKS = {
              "certainly started is open; every such call ended (cancel-rest, then the restore by the same goroutine) before the return; a deploy's return is "
              "preceded, after its install, by a Drain of EVERY target of the balancer it replaced, with the drain timeout it was given; jointly: at the "
              "return every request of those calls' snapshots has left the target or been cut off; a claim on a target comes from a request whose service "
-             "object held that balancer in a slot when it picked it (the residual of finding D2); the 'possible owner' form refuted by witness. The remaining "
+             "object held that balancer in a slot when it picked it (the residual of finding D2); the 'possible owner' form refuted by witness. EXACT linkage "
+             "(props/C03link.v over model/M5cmd.v, traces recorded with the drainall / drain-child / drainall-done / svc-drain hook events; no ownership "
+             "inference, no timing): a DrainAll call is done only after a child goroutine has run Drain on EVERY target of the balancer to its end (cancel-rest, "
+             "restore) or found it draining; a deploy's successful return is preceded by the completed DrainAll of the balancer it replaced, a pause's / stop's "
+             "by completed DrainAll calls, entered after its gate was set, on every balancer of the service; jointly with M5full: at the return every request "
+             "of every such Drain call's snapshot has left the target or been cut off. The remaining "
              "command-level clause (nothing claimed on the drained targets afterwards, modulo D2/D3) is the monitor corr/C03corr.c03_check. Correspondence: "
              "in-flight sets finishing early / at the deadline +-1 ns / never, upgraded connections (101 at once or during the drain), drain timeouts 0..3 s, "
-             "late and held requests forced through yields; every recorded trace must be accepted by BOTH views.",
+             "late and held requests forced through yields; every recorded trace must be accepted by ALL THREE views (M5full, M5time on the trace without linkage events, M5cmd).",
         note="No axioms. Recorded finding C03-D2D3 (requests already routed / past the gate reach replaced or paused targets after the command returned). Which command "
              "started a Drain call is inferred by the timing view (same instant, same drain timeout): the theorems carry 'c is the only candidate' as an explicit hypothesis; "
              "the view's state-set rule does not look at the states (a drain 'end' could be a mark: example in C03cmd.v). Overlapping commands on one service are outside the "
